@@ -283,6 +283,10 @@ pub struct RunSpec {
     pub may_forget: bool,
     /// run inside tokio's cooperative budget
     pub coop: bool,
+    /// for_each family: the schedule may send the signal also while hand-outs may still
+    /// be waiting for their first poll (then only the count bound of C08 is not
+    /// evaluated, everything else is)
+    pub signals_anytime: bool,
     /// histories: the consumer walks away from the stream still holding whatever
     /// FnRefs it has at that moment; up to `carried_slots` of the next run are filled
     /// with them
@@ -557,6 +561,7 @@ impl RunSpec {
             "may_abort": self.may_abort,
             "may_forget": self.may_forget,
             "coop": self.coop,
+            "signals_anytime": self.signals_anytime,
             "leave_refs": self.leave_refs,
             "carried_slots": self.carried_slots,
             "coop_burn": self.coop_burn,
@@ -584,6 +589,7 @@ impl RunSpec {
             may_abort: v.get("may_abort")?.as_bool()?,
             may_forget: v.get("may_forget")?.as_bool()?,
             coop: v.get("coop").and_then(|c| c.as_bool()).unwrap_or(false),
+            signals_anytime: v.get("signals_anytime").and_then(|c| c.as_bool()).unwrap_or(false),
             leave_refs: v.get("leave_refs").and_then(|c| c.as_bool()).unwrap_or(false),
             carried_slots: v.get("carried_slots").and_then(|c| c.as_u64()).unwrap_or(0) as u8,
             coop_burn: v.get("coop_burn").and_then(|c| c.as_u64()).unwrap_or(0) as u8,
